@@ -34,7 +34,7 @@ ASSUMPTIONS = [
 TRUSTED = ["assumed builtin contracts of str.rsplit / importlib.import_module / getattr / issubclass (spot-validated natively)"]
 
 TAG_KINDS = ["absent", "null", "true", "false", "int", "float", "str", "list-empty", "list", "dict-empty", "dict"]
-TARGET_KINDS = ["serializer-subclass", "registered-class", "unregistered-class", "function", "module", "typevar-like"]
+TARGET_KINDS = ["serializer-subclass", "registered-class", "unregistered-class", "function", "module", "typevar-like", "none-object"]
 
 
 def cls(vm, name):
@@ -75,8 +75,12 @@ def install_env(vm, log):
             k = ctx.choice(len(TARGET_KINDS) + 1, "attribute")
             if k == 0:
                 ctx.inputs["attribute"] = "missing"
+                if default:
+                    return default[0]
                 it.raise_("AttributeError", "module has no attribute")
             ctx.inputs["attribute"] = TARGET_KINDS[k - 1]
+            if TARGET_KINDS[k - 1] == "none-object":
+                return None     # a module attribute may be bound to None (e.g. builtins.None)
             return Target(TARGET_KINDS[k - 1])
         raise AssertionError("unexpected symbolic getattr")
     vm.spec.opaque_hooks["getattr_sym"] = getattr_sym
@@ -195,7 +199,7 @@ def h_tag(kind):
                               z3.BoolVal(ctx.inputs.get("attribute") == "missing"))
                 elif nm == "ClassNotDeserializableError":
                     ctx.check("from_json::ClassNotDeserializable-only-for-non-deserialisable-targets",
-                              z3.BoolVal(ctx.inputs.get("attribute") in ("unregistered-class", "function", "module", "typevar-like")))
+                              z3.BoolVal(ctx.inputs.get("attribute") in ("unregistered-class", "function", "module", "typevar-like", "none-object")))
             return
         ctx.cover("returned")
         ok = isinstance(r, tuple) and len(r) == 3 and r[0] == "handover" and (
@@ -203,6 +207,26 @@ def h_tag(kind):
         ctx.check(f"from_json::returns-only-by-handover-to-a-deserialisable-class[{kind}]", z3.BoolVal(ok), detail=repr(r))
     covers = ["raised"] + (["returned"] if kind == "str" else [])
     return Harness(f"tag-{kind}", run, spec=Spec(), covers=covers)
+
+
+def h_registry():
+    """The registry answers for exactly the registered class (a subclass of a registered type is not deserialisable
+    through its base: the result would be an object of the wrong class)."""
+    def run(vm):
+        ctx = vm.ctx
+        SYM = "krrood.entity_query_language.symbolic"
+        A = vm.loader.cls(SYM, "ResultQuantifier")
+        B = vm.loader.cls(SYM, "The")            # a strict subclass of A
+        C = vm.loader.cls(SYM, "Literal")        # unrelated
+        reg = vm.alloc(cls(vm, "JSONSerializableTypeRegistry"), {"_serializers": make_dict([]), "_deserializers": make_dict([])}, tag="registry")
+        sA, dA = Builtin("sA", lambda *a: None), Builtin("dA", lambda *a: None)
+        vm.call_method(reg, "register", A, sA, dA)
+        ctx.check("JSONSerializableTypeRegistry::registered-class-gets-its-own-functions",
+                  z3.BoolVal(vm.call_method(reg, "get_deserializer", A) is dA and vm.call_method(reg, "get_serializer", A) is sA))
+        ctx.check("JSONSerializableTypeRegistry::answers-for-exactly-the-registered-class",
+                  z3.BoolVal(vm.call_method(reg, "get_deserializer", B) is None and vm.call_method(reg, "get_deserializer", C) is None
+                             and vm.call_method(reg, "get_serializer", B) is None and vm.call_method(reg, "get_serializer", C) is None))
+    return Harness("registry", run, spec=Spec())
 
 
 def h_canary():
@@ -219,4 +243,4 @@ def h_canary():
 
 
 def harnesses():
-    return [h_tag(k) for k in TAG_KINDS] + [h_canary()]
+    return [h_tag(k) for k in TAG_KINDS] + [h_registry(), h_canary()]
